@@ -15,7 +15,7 @@ RULE = ("(a) in-memory reader: call sets of 2-5 samples x sample lists (subset, 
         "builder; (b) on the binary: column permutations and label-order-preserving list reorderings print identical "
         "bytes; reordering labels permutes the axes (checked by transposing the parsed spectrum); -s vs -S file with the "
         "same content print identical bytes; unknown sample / empty list exit non-zero with empty stdout. non-trivial = "
-        "list with >= 2 labels; a listed non-diploid genotype after a listed missing / multiallelic one in every column order is an error")
+        "list with >= 2 labels; a listed non-diploid genotype after a listed missing / multiallelic one in every column order is an error; samples files mixing a tab followed by nothing (the population '') with lines without a tab (unnamed)")
 
 
 def transpose_flat(shape, vals, perm):
@@ -96,7 +96,9 @@ def check(rep, tier, seed):
     files = [b"a\tA\nb\tB\nc\tA\n", b"a\nb\nc\n", b"a\tA\nb\n", b"a\tA\nb\tB", b"a\tA\r\nb\tB\r\n", b"a\tA\n\nb\tB\n", b"", b"\n", b"\n\n",
              b"#a\tA\nb\tB\n", b"#sample\tpopulation\na\tA\n", b"a\tA\n#\n", b"a\tX\nb\tX \nc\t X\n",
              b"a\tA\tx\nb\tB\n", b"a \tA\nb\t B\n", b"a=A\nb=B\n", b"a,b\tA\n", b"\tA\nb\tA\n", b"a\t\nb\t\n", b"a\tA\na\tB\n", b"a\tA\nb\tB\na\tB\n",
-             b"s 0\tpop 1\ns1\tpop 2\ns2\tpop 1\n", b"a\tA\rb\tB\n", b"a\tA\n\r\nb\tA\n", b"x\tA B\ty\n"]
+             b"s 0\tpop 1\ns1\tpop 2\ns2\tpop 1\n", b"a\tA\rb\tB\n", b"a\tA\n\r\nb\tA\n", b"x\tA B\ty\n",
+             # a line with a tab and nothing after it names the population "" - which is not the unnamed population of a line without a tab
+             b"a\t\nb\nc\tB\n", b"a\nb\t\n", b"a\t\nb\t\nc\n", b"a\t\nb\nc\t\nd\n", b"a\nb\t\nc\tB\nd\n"]
     for _ in range(40 if tier == "quick" else 400):
         alphabet = b"ab \t\n\r=,AB"
         files.append(bytes(rng.choice(alphabet) for _ in range(rng.randrange(0, 24))))
